@@ -15,13 +15,13 @@ ASSUMPTIONS = ["tolerances fixed in advance: |Exp(Log A)-A| <= 1e-8 for every A;
                "T*T_inv-I <= 1e-10*cond(T_inv) for |psi| <= 2pi-1e-3; Spurrier unit norm 1e-12 and reproduction 1e-10",
                "input matrices are orthonormal up to accumulated rounding (<= 1e-13)",
                "reference: mpmath 50-digit models in vlib/mpref.py, validated against group axioms at start-up"]
-REQUIRED_MONITORS = ["logexp", "explog", "spurrier", "TTinv", "spin", "se3.logexp", "se3.explog", "se3.exp_vs_mp", "exp_vs_mp"]
+REQUIRED_MONITORS = ["logexp", "explog", "spurrier", "TTinv", "spin", "se3.logexp", "se3.explog", "se3.exp_vs_mp", "exp_vs_mp", "purity"]
 META = {
     "level_text": "Exploration: round-trip identities evaluated on the return values of the real maps over hostile inputs (half turns, near half turns, tiny angles, all Spurrier branches) plus agreement with an independent 50-digit model. Held on the inputs generated.",
     "level_note": "float64; tolerances as listed in assumptions; all four Spurrier branches must be observed (else inconclusive).",
     "technique": "runtime return-value monitors with mpmath reference model",
 }
-KINDS = ["logexp", "explog", "spurrier", "TTinv", "spin", "se3"]
+KINDS = ["logexp", "explog", "spurrier", "TTinv", "spin", "se3", "purity"]
 
 
 def cases(tier, seed):
@@ -91,6 +91,23 @@ def run_case(spec, ctx):
     first = None
     nontrivial = False
     I3 = np.eye(3)
+    if kind == "purity":
+        from vlib.oracles import purity_check
+        thunks = []
+        for b in range(spec["batch"]):
+            psi, cls = _psi(rng)
+            r = rng.normal(size=3) * loguniform(rng, 1e-3, 1e3)
+            h = np.concatenate([r, psi])
+            A = np.array(mpref.tolist(mpref.exp_so3(psi.tolist())), dtype=float)
+            H = np.eye(4); H[:3, :3] = A; H[:3, 3] = r
+            first = first or [psi.tolist(), cls]
+            for name, arg in (("Exp_SO3", psi), ("Log_SO3", A), ("Spurrier", A), ("T_SO3", psi), ("T_SO3_inv", psi), ("Exp_SE3", h), ("Log_SE3", H)):
+                thunks.append((name, {"function": name, "argument": arg}, (lambda f=getattr(R, name), a=arg: f(a.copy()))))
+        purity_check(ctx, rng, thunks, mon="purity")
+        ctx.cls("kind:purity")
+        ctx.sig([kind, first], nontrivial=True)
+        ctx.sample({"kind": kind, "calls": len(thunks)})
+        return
     for b in range(spec["batch"]):
         if kind == "logexp":
             psi, cls = _psi(rng)
